@@ -124,7 +124,7 @@ fn parent_doc(p: &Params, dir: &std::path::Path) -> String {
   <onexit><script>mark('inv-exited')</script></onexit>
   {invokes}
   {broken}
-  <transition event="c"><script>mark('pc', _event.name, _event.invokeid, _event.data.seq, _event.data.tag, _event.data.sid)</script></transition>
+  <transition event="c" cond="mark('pcg', finalized, _event.data.seq)"><script>mark('pc', _event.name, _event.invokeid, _event.data.seq, _event.data.tag, _event.data.sid)</script></transition>
   <transition event="done.invoke"><script>mark('pdone', _event.name, _event.invokeid)</script></transition>
   <transition event="h"><script>mark('ph', _event.name)</script></transition>
   <transition event="ids"><script>mark('ids', id_k1, id_k2)</script></transition>
@@ -179,6 +179,7 @@ struct Outcome {
     child_events_processed: usize,
     forwarded: usize,
     perr: usize,
+    guard_probes: usize,
 }
 
 fn scenario(p: &Params, dir: &std::path::Path) -> Outcome {
@@ -191,6 +192,7 @@ fn scenario(p: &Params, dir: &std::path::Path) -> Outcome {
         child_events_processed: 0,
         forwarded: 0,
         perr: 0,
+        guard_probes: 0,
     };
     let mut case = Case::new();
     case.executor.set_include_paths(&vec![dir.to_path_buf()]);
@@ -361,6 +363,8 @@ fn scenario(p: &Params, dir: &std::path::Path) -> Outcome {
     let mut round = 0usize;
     let mut in_inv = false;
     let mut last_fin: Option<(String, String)> = None; // (fin tag, seq) in current macrostep
+    let mut fin_count: i64 = 0;
+    let mut guard_probes: usize = 0;
     let mut seq_seen: HashMap<String, i64> = HashMap::new(); // per invokeid last seq
     let mut done_seen: HashMap<String, usize> = HashMap::new();
     let mut done_total = 0usize;
@@ -389,7 +393,20 @@ fn scenario(p: &Params, dir: &std::path::Path) -> Outcome {
                     in_inv = false;
                     exits += 1;
                 }
+                "pcg" => {
+                    // guard probe: evaluated while transitions are selected; the <finalize> of this event's invoke
+                    // has run by then (its assignment is visible and its mark precedes the guard's)
+                    guard_probes += 1;
+                    let seen: i64 = s_arg(args, 0).parse().unwrap_or(-1);
+                    if seen != fin_count {
+                        out.violations.push((
+                            "finalize-not-run-before-transition-selection".into(),
+                            format!("while transitions were selected for child event seq {} the parent's data showed {} finalize runs, {} had been started", s_arg(args, 1), seen, fin_count),
+                        ));
+                    }
+                }
                 t if t.starts_with("fin-") => {
+                    fin_count += 1;
                     if let Some((prev, _)) = &last_fin {
                         if prev != t {
                             out.violations.push((
@@ -563,6 +580,7 @@ fn scenario(p: &Params, dir: &std::path::Path) -> Outcome {
         out.violations.push(("child-event-processed-after-cancel".into(), format!("child events {:?} processed outside the invoking state", pc_after_exit)));
     }
     out.child_events_processed = seq_seen.len().max(out.child_events_processed);
+    out.guard_probes = guard_probes;
     out
 }
 
@@ -591,6 +609,7 @@ pub fn run(args: &Args, rep: &mut Report) {
         rep.evaluations += 1;
         rep.count("child_events_processed_by_parents", o.child_events_processed as u64);
         rep.count("events_forwarded_to_children", o.forwarded as u64);
+        rep.count("finalize_visible_in_guard_probes", o.guard_probes as u64);
         rep.count(if p.stream { "template_streaming_child" } else { "template_finishing_child" }, 1);
         if p.two_invokes {
             rep.count("template_two_invokes", 1);
